@@ -212,7 +212,7 @@ def confirm(ob_, cex):
 # ---- E2c twins ---------------------------------------------------------------------------
 VALUES = [
     ("1", 1), ("-7", -7), ("0.5", 0.5), ("true", True), ("False", False), ("null", None),
-    ('"a b"', "a b"), ("'c d'", "c d"), ('\'{"k": 1}\'', {"k": 1}), ("<% ctx().x %>", "<% ctx().x %>"), ("{{ ctx().x }}", "{{ ctx().x }}"), ('"Q\'"', "Q'"),
+    ('"a b"', "a b"), ("'c d'", "c d"), ('\'{"k": 1}\'', {"k": 1}), ("<% ctx().x %>", "<% ctx().x %>"), ("{{ ctx().x }}", "{{ ctx().x }}"), ('"Q\'"', "Q'"), ('" pad "', " pad "), ("'> '", "> "), ('" "', " "),
 ]
 
 
